@@ -396,7 +396,7 @@ func (o *ownCtx) transferEdges(fn *ssa.Function, hs *handleSet) EdgePred {
 		if i == nil {
 			return false
 		}
-		x, nilOnTrue, ok := nilCmp(i.Cond)
+		x, nilOnTrue, ok := nilCmp(condOf(b))
 		if !ok {
 			return false
 		}
